@@ -4313,6 +4313,7 @@ EmitModSib_LabelRip_X86:
           // [LABEL->ABS].
           uint32_t base_label_id = rm_rel->as<Mem>().base_id();
           if (ASMJIT_UNLIKELY(!_code->is_label_valid(base_label_id))) {
+            goto InvalidLabel;
           }
 
           label = &_code->label_entry_of(base_label_id);
